@@ -601,6 +601,13 @@ def check_C12(tier, seed, rest):
         defs.append(tw)
     b = engine_b(tier, seed, "modes", defs, ["tc", "sm_safe"])
     v = [b_violation(f) for f in b["findings"] if f["kind"] in ("mode_diff", "seq_full", "crash")]
+    # a definition the derive accepts in str mode must also be accepted with utf8 = false
+    from pipeline import capture as _cap
+    _dp, _metas, _ = _cap(defs, "modes")
+    _by = {m["id"]: m for m in _metas}
+    for m in _metas:
+        if m["id"].endswith("__bytes") and not m["accepted"] and _by.get(m["id"][:-7], {}).get("accepted"):
+            v.append({"key": "%s:twin-rejected" % m["id"], "what": "definition accepted in str mode is rejected with utf8 = false: %s" % (m["errors"][:1],), "definition": m["src"]})
     ex = b["extra"]
     if ex.get("modes") and not ex["modes"]["ok"]:
         v.append({"key": "modes-spec", "what": "Modes.tla: SameInBothModes violated at specification level", "tlc": ex.get("modes_out")})
